@@ -63,12 +63,19 @@ type GOp struct {
 	// resize2: Resize(BW, BH) immediately followed by Resize(BW2, BH2) (two quick size changes);
 	// the second call is the one the application wants
 	BW2, BH2 int `json:",omitempty"`
+	// Thin (resize): the box leaves the image less than one pixel in some direction. Whether the
+	// library then announces a new encoding (Redraw) is its own business: the driver waits for one
+	// for thinGrace and goes on drawing either way
+	Thin bool `json:",omitempty"`
 }
 
 type Frame struct {
 	Ops        []GOp
-	End        string // render | refresh | termsize
+	End        string // render | refresh | termsize | cellsize
 	Cols, Rows int    `json:",omitempty"`
+	// cellsize: before the frame's operations the terminal reports (in band) a new pixel size for
+	// the same number of columns and rows: its cells are CW x CH pixels from now on
+	CW, CH int `json:",omitempty"`
 }
 
 type Scn struct {
@@ -493,6 +500,10 @@ func (se *session) runBlocks(ctx *Ctx, sc *Scn) []trace.Ev {
 // for a second one (the encodings used there take a few tens of milliseconds).
 const doubleGrace = 1200 * time.Millisecond
 
+// thinGrace: how long the driver waits for the Redraw of a Resize that leaves the
+// image less than one pixel high or wide (such an encoding is a few hundred bytes).
+const thinGrace = 1500 * time.Millisecond
+
 func (se *session) runHist(ctx *Ctx, sc *Scn) (evs []trace.Ev, note string) {
 	imgs := make([]vaxis.Image, len(sc.Imgs))
 	cropped := false
@@ -516,8 +527,11 @@ func (se *session) runHist(ctx *Ctx, sc *Scn) (evs []trace.Ev, note string) {
 		x0, y0 int // origin and extent, only for keeping sixel images apart
 	}
 	var want []placed
-	gen := make([]int, len(imgs))  // how often each image has been (re-)encoded
-	dbl := make([]bool, len(imgs)) // its latest encoding was asked for right after another one
+	gen := make([]int, len(imgs))   // how often each image has been (re-)encoded
+	dbl := make([]bool, len(imgs))  // its latest encoding was asked for right after another one
+	thin := make([]bool, len(imgs)) // its latest Resize left it less than one pixel in some direction
+	cw, ch := sc.CW, sc.CH          // the terminal's current cell size in pixels
+	regeom := false                 // the cell size has changed during the history
 	abort := func(what string) ([]trace.Ev, string) {
 		return append(evs, trace.Ev{"ev": "abort", "what": what}), "abort: " + what
 	}
@@ -528,14 +542,28 @@ func (se *session) runHist(ctx *Ctx, sc *Scn) (evs []trace.Ev, note string) {
 			cols, rows = f.Cols, f.Rows
 			se.s.Con.SetSize(cols, rows)
 			se.s.Resp.Cols, se.s.Resp.Rows = cols, rows
-			se.s.Resp.XPix, se.s.Resp.YPix = cols*sc.CW, rows*sc.CH
-			se.s.Con.Inject([]byte(fmt.Sprintf("\x1b[48;%d;%d;%d;%dt", rows, cols, rows*sc.CH, cols*sc.CW)))
+			se.s.Resp.XPix, se.s.Resp.YPix = cols*cw, rows*ch
+			se.s.Con.Inject([]byte(fmt.Sprintf("\x1b[48;%d;%d;%d;%dt", rows, cols, rows*ch, cols*cw)))
 			if !se.settle() {
 				return abort("termsize")
 			}
 			se.vx.Render() // takes the new size; the next render repaints everything
 			evs = append(evs, se.gfx.Feed(se.s.Con.Take())...)
 			evs = append(evs, trace.Ev{"ev": "resize", "rows": rows, "cols": cols})
+		}
+		if f.End == "cellsize" && (f.CW != cw || f.CH != ch) {
+			// the same columns and rows, other pixels (a font size change that the window
+			// follows, a move to a screen of another density): reported in band like any
+			// other size change; the application renders once and goes on
+			cw, ch, regeom = f.CW, f.CH, true
+			se.s.Resp.XPix, se.s.Resp.YPix = cols*cw, rows*ch
+			se.s.Con.Inject([]byte(fmt.Sprintf("\x1b[48;%d;%d;%d;%dt", rows, cols, rows*ch, cols*cw)))
+			if !se.settle() {
+				return abort("cellsize")
+			}
+			se.vx.Render()
+			evs = append(evs, se.gfx.Feed(se.s.Con.Take())...)
+			evs = append(evs, trace.Ev{"ev": "geom", "cw": cw, "ch": ch})
 		}
 		for _, op := range f.Ops {
 			switch op.K {
@@ -549,8 +577,25 @@ func (se *session) runHist(ctx *Ctx, sc *Scn) (evs []trace.Ev, note string) {
 				imgs[op.I].Resize(op.BW, op.BH)
 				gen[op.I]++
 				dbl[op.I] = false
-				if !se.waitRedraw(5 * time.Second) {
+				thin[op.I] = op.Thin
+				if op.Thin {
+					se.waitRedraw(thinGrace)
+				} else if !se.waitRedraw(5 * time.Second) {
 					return abort("no Redraw after Resize")
+				}
+				if op.Thin || regeom {
+					// the size the image reports has to be a fit of the box (in the cells of now)
+					ow, oh := imgs[op.I].CellSize()
+					var o [2]int
+					if op.I < len(sc.Org) {
+						o = sc.Org[op.I]
+					}
+					tag := "thin"
+					if !op.Thin {
+						tag = "geometry"
+					}
+					evs = append(evs, trace.Ev{"ev": "fit", "n": fi, "iw": sc.Imgs[op.I][0], "ih": sc.Imgs[op.I][1], "bw": op.BW, "bh": op.BH,
+						"cw": cw, "ch": ch, "ow": ow, "oh": oh, "done": true, "ox": o[0], "oy": o[1], "ctx": tag})
 				}
 			case "resize2":
 				for len(se.red) > 0 {
@@ -560,6 +605,7 @@ func (se *session) runHist(ctx *Ctx, sc *Scn) (evs []trace.Ev, note string) {
 				imgs[op.I].Resize(op.BW2, op.BH2)
 				gen[op.I] += 2
 				dbl[op.I] = true
+				thin[op.I] = false
 				if !se.waitRedraw(10 * time.Second) {
 					return abort("no Redraw after Resize")
 				}
@@ -577,7 +623,7 @@ func (se *session) runHist(ctx *Ctx, sc *Scn) (evs []trace.Ev, note string) {
 					tag += "+origin"
 				}
 				evs = append(evs, trace.Ev{"ev": "fit", "n": fi, "iw": sc.Imgs[op.I][0], "ih": sc.Imgs[op.I][1], "bw": op.BW2, "bh": op.BH2,
-					"cw": sc.CW, "ch": sc.CH, "ow": ow, "oh": oh, "done": true, "ox": o[0], "oy": o[1], "ctx": tag})
+					"cw": cw, "ch": ch, "ow": ow, "oh": oh, "done": true, "ox": o[0], "oy": o[1], "ctx": tag})
 			case "draw":
 				w, h := imgs[op.I].CellSize()
 				win := c11.Build(se.vx, op.Chain)
@@ -613,6 +659,15 @@ func (se *session) runHist(ctx *Ctx, sc *Scn) (evs []trace.Ev, note string) {
 				tags = append(tags, "double-resize")
 				break
 			}
+		}
+		for _, p := range want {
+			if thin[p.k] {
+				tags = append(tags, "thin")
+				break
+			}
+		}
+		if regeom {
+			tags = append(tags, "geometry")
 		}
 		if cropped {
 			tags = append(tags, "origin")
@@ -1202,5 +1257,343 @@ func FixedHist() []*Scn {
 		{Ops: []GOp{cl, {K: "resize2", I: 0, BW: 12, BH: 6, BW2: 2, BH2: 1}, {K: "draw", I: 0, Chain: in}}, End: "render"},
 		{Ops: []GOp{cl, {K: "draw", I: 0, Chain: moved}}, End: "render"},
 	}})
+	return out
+}
+
+// ---- follow-up generators (h20-2 round) -------------------------------------
+// They draw from random streams of their own, so the scenarios of the
+// generators above stay what they were for every seed.
+
+// SheerBlocks: semi-transparent ("sheer": alpha 50..254) source pixels of known
+// straight colours, in straight-alpha and premultiplied sources of several
+// kinds, above / below opaque pixels and in pairs of the same colour; and
+// cells covering one sufficiently transparent pixel (coloured or not) and one
+// visible pixel, or two transparent ones. Unscaled, fully visible.
+func SheerBlocks() []*Scn {
+	var out []*Scn
+	cols := [][3]int{{100, 100, 100}, {1, 2, 3}, {254, 128, 50}, {255, 255, 255}, {200, 10, 10}, {0, 255, 0}, {6, 5, 250}, {77, 0, 129}}
+	al := []int{50, 51, 98, 127, 128, 200, 254, 255}
+	clr := []int{49, 0, 20, 1, 49, 0, 35, 10}
+	full := []c11.Level{{"new", 1, 0, 8, 3}}
+	type variant struct {
+		premul bool
+		src    string
+	}
+	vars := []variant{{false, ""}, {true, ""}, {false, "nrgba64"}, {false, "rgba64"}, {false, "paletted"}, {false, "alien"}, {false, "nycbcra"}}
+	for _, proto := range []string{"half", "full"} {
+		var blocks []Block
+		for vi, v := range vars {
+			mk := func(h int) Block {
+				return Block{Chain: full, W: 8, H: h, Px: make([]uint32, 8*h), Premul: v.premul, Src: v.src}
+			}
+			// sheer over opaque, opaque over sheer
+			a := mk(4)
+			// the same sheer colour twice; two different sheer colours
+			b := mk(4)
+			// a transparent pixel (with a colour of its own) and a visible one, both ways; two transparent ones
+			c := mk(4)
+			d := mk(2)
+			for x := 0; x < 8; x++ {
+				c1, c2 := cols[(x+vi)%len(cols)], cols[(x+vi+3)%len(cols)]
+				lv := al[(x+vi)%len(al)]
+				a.Px[x], a.Px[8+x] = pack(c1[0], c1[1], c1[2], lv), pack(c2[0], c2[1], c2[2], 255)
+				a.Px[16+x], a.Px[24+x] = pack(c2[0], c2[1], c2[2], 255), pack(c1[0], c1[1], c1[2], lv)
+				b.Px[x], b.Px[8+x] = pack(c1[0], c1[1], c1[2], lv), pack(c1[0], c1[1], c1[2], lv)
+				b.Px[16+x], b.Px[24+x] = pack(c1[0], c1[1], c1[2], lv), pack(c2[0], c2[1], c2[2], al[(x+vi+5)%len(al)])
+				ca := clr[(x+vi)%len(clr)]
+				c.Px[x], c.Px[8+x] = pack(c2[0], c2[1], c2[2], ca), pack(c1[0], c1[1], c1[2], []int{255, lv}[x%2])
+				c.Px[16+x], c.Px[24+x] = pack(c1[0], c1[1], c1[2], []int{lv, 255}[x%2]), pack(c2[0], c2[1], c2[2], ca)
+				d.Px[x], d.Px[8+x] = pack(c1[0], c1[1], c1[2], ca), pack(c2[0], c2[1], c2[2], clr[(x+vi+1)%len(clr)])
+			}
+			blocks = append(blocks, a, b, c, d)
+		}
+		// the three cells of the report: green at alpha 49 over opaque red; opaque white over
+		// nothing; white at alpha 98 over nothing - and their mirror images
+		e := Block{Chain: full, W: 6, H: 2, Px: []uint32{
+			pack(0, 255, 0, 49), pack(255, 255, 255, 255), pack(255, 255, 255, 98), pack(255, 0, 0, 255), pack(0, 0, 0, 0), pack(0, 0, 0, 0),
+			pack(255, 0, 0, 255), pack(0, 0, 0, 0), pack(0, 0, 0, 0), pack(0, 255, 0, 49), pack(255, 255, 255, 255), pack(255, 255, 255, 98)}}
+		blocks = append(blocks, e)
+		e.Premul = true
+		blocks = append(blocks, e)
+		for i := 0; i < len(blocks); i += 10 {
+			j := i + 10
+			if j > len(blocks) {
+				j = len(blocks)
+			}
+			out = append(out, &Scn{Kind: "block", Proto: proto, Cols: 10, Rows: 4, CW: 8, CH: 16, Blocks: blocks[i:j]})
+		}
+	}
+	return out
+}
+
+// ThinFits: extreme aspect ratios (100:1 and beyond, both ways) and boxes one
+// cell high or wide, and moderate ones (12:1) whose scaled size still falls
+// below one pixel.
+func ThinFits() []*Scn {
+	var out []*Scn
+	F := func(iw, ih, bw, bh int) Fit { return Fit{IW: iw, IH: ih, BW: bw, BH: bh} }
+	var fits []Fit
+	for _, im := range [][2]int{{200, 1}, {200, 2}, {100, 3}, {24, 2}, {12, 1}} {
+		for _, bx := range [][2]int{{1, 1}, {2, 1}, {3, 1}, {11, 1}, {50, 1}, {199, 1}, {200, 1}, {7, 2}} {
+			fits = append(fits, F(im[0], im[1], bx[0], bx[1]), F(im[1], 2*im[0], bx[1], bx[0]))
+		}
+	}
+	fits = append(fits, Fit{IW: 200, IH: 1, BW: 3, BH: 1, OX: 5, OY: 7}, Fit{IW: 1, IH: 200, BW: 1, BH: 2, OX: -3, OY: -2})
+	for _, proto := range []string{"half", "full"} {
+		out = append(out, &Scn{Kind: "fit", Proto: proto, Cols: 10, Rows: 4, CW: 8, CH: 16, Fits: fits})
+	}
+	for _, proto := range []string{"kitty", "sixel"} {
+		for _, g := range Geoms {
+			var pix []Fit
+			for _, ih := range []int{1, g[1] / 2, g[1]} {
+				for _, bx := range [][2]int{{1, 1}, {3, 1}, {10, 1}, {199, 1}, {200, 1}, {10, 2}} {
+					pix = append(pix, F(200*g[0], ih, bx[0], bx[1]))
+				}
+				pix = append(pix, F(12*g[0], ih, 4, 1), F(12*g[0]-1, ih, 1, 1), F(12*g[0], ih, 11, 1))
+			}
+			for _, iw := range []int{1, g[0]} {
+				for _, bx := range [][2]int{{1, 1}, {1, 3}, {1, 10}, {2, 10}, {1, 99}} {
+					pix = append(pix, F(iw, 100*g[1], bx[0], bx[1]))
+				}
+				pix = append(pix, F(iw, 12*g[1], 1, 4))
+			}
+			pix = append(pix, Fit{IW: 200 * g[0], IH: 1, BW: 10, BH: 1, OX: g[0], OY: 3})
+			out = append(out, &Scn{Kind: "fit", Proto: proto, Cols: 12, Rows: 6, CW: g[0], CH: g[1], Fits: pix})
+		}
+	}
+	return out
+}
+
+// ThinHist: a banner (or a pole) is shown unscaled, then resized into a box that
+// leaves it less than one pixel high (wide) and drawn into a window of the
+// size of that box, kept, moved and refreshed. Whatever the library makes of
+// such a Resize, what the terminal displays afterwards has to be what the
+// image reports as its size, inside that window.
+func ThinHist() []*Scn {
+	var out []*Scn
+	cl := GOp{K: "clear"}
+	for _, proto := range []string{"kitty", "sixel"} {
+		// 1000 x 5 px in cells of 10 x 20: 100 x 1 cells; into 10 x 1
+		wide := []c11.Level{{"new", 1, 1, 101, 1}}
+		box := []c11.Level{{"new", 1, 1, 10, 1}}
+		out = append(out, &Scn{Kind: "hist", Proto: proto, Cols: 103, Rows: 3, CW: 10, CH: 20, Imgs: [][2]int{{1000, 5}}, Frames: []Frame{
+			{Ops: []GOp{{K: "resize", I: 0, BW: 100, BH: 1}}, End: "render"},
+			{Ops: []GOp{cl, {K: "draw", I: 0, Chain: wide}}, End: "render"},
+			{Ops: []GOp{cl, {K: "resize", I: 0, BW: 10, BH: 1, Thin: true}, {K: "draw", I: 0, Chain: box}}, End: "render"},
+			{Ops: []GOp{cl, {K: "draw", I: 0, Chain: box}}, End: "render"},
+			{Ops: []GOp{cl, {K: "draw", I: 0, Chain: box}}, End: "refresh"},
+		}})
+		// 24 x 2 px in cells of 2 x 4: 12 x 1 cells; into 4 x 1; never shown unscaled
+		small := []c11.Level{{"new", 2, 1, 4, 1}}
+		out = append(out, &Scn{Kind: "hist", Proto: proto, Cols: 14, Rows: 5, CW: 2, CH: 4, Imgs: [][2]int{{24, 2}}, Frames: []Frame{
+			{Ops: []GOp{{K: "resize", I: 0, BW: 12, BH: 1}}, End: "render"},
+			{Ops: []GOp{cl, {K: "draw", I: 0, Chain: []c11.Level{{"new", 1, 1, 12, 1}}}}, End: "render"},
+			{Ops: []GOp{cl, {K: "resize", I: 0, BW: 4, BH: 1, Thin: true}, {K: "draw", I: 0, Chain: small}}, End: "render"},
+			{Ops: []GOp{cl, {K: "draw", I: 0, Chain: small}}, End: "render"},
+			{Ops: []GOp{cl, {K: "draw", I: 0, Chain: []c11.Level{{"new", 5, 3, 4, 1}}}}, End: "render"},
+			{Ops: []GOp{cl, {K: "draw", I: 0, Chain: []c11.Level{{"new", 5, 3, 4, 1}}}}, End: "refresh"},
+		}})
+		// the first Resize of the image is the thin one (nothing of it on the terminal yet)
+		out = append(out, &Scn{Kind: "hist", Proto: proto, Cols: 14, Rows: 5, CW: 8, CH: 16, Imgs: [][2]int{{96, 3}}, Frames: []Frame{
+			{Ops: []GOp{{K: "resize", I: 0, BW: 3, BH: 1, Thin: true}}, End: "render"},
+			{Ops: []GOp{cl, {K: "draw", I: 0, Chain: []c11.Level{{"new", 1, 1, 3, 1}}}}, End: "render"},
+			{Ops: []GOp{cl, {K: "draw", I: 0, Chain: []c11.Level{{"new", 1, 1, 3, 1}}}}, End: "render"},
+		}})
+		// a pole: 2 x 96 px in cells of 2 x 4: 1 x 24 cells; into 1 x 4
+		out = append(out, &Scn{Kind: "hist", Proto: proto, Cols: 8, Rows: 26, CW: 2, CH: 4, Imgs: [][2]int{{2, 96}}, Frames: []Frame{
+			{Ops: []GOp{{K: "resize", I: 0, BW: 1, BH: 24}}, End: "render"},
+			{Ops: []GOp{cl, {K: "draw", I: 0, Chain: []c11.Level{{"new", 2, 1, 1, 24}}}}, End: "render"},
+			{Ops: []GOp{cl, {K: "resize", I: 0, BW: 1, BH: 4, Thin: true}, {K: "draw", I: 0, Chain: []c11.Level{{"new", 2, 1, 1, 4}}}}, End: "render"},
+			{Ops: []GOp{cl, {K: "draw", I: 0, Chain: []c11.Level{{"new", 2, 1, 1, 4}}}}, End: "refresh"},
+		}})
+	}
+	return out
+}
+
+// GenThin: seeded histories of one banner or pole (8..12 cells long, at most
+// half a cell thick): shown unscaled, resized into a box that makes it vanish
+// in the thin direction, drawn into a window of that box, kept / moved /
+// refreshed, sometimes resized back.
+func GenThin(seed int64, n int) []*Scn {
+	rng := rand.New(rand.NewSource(seed*7919 + 20))
+	var out []*Scn
+	for s := 0; s < n; s++ {
+		g := Geoms[rng.Intn(len(Geoms))]
+		k := 8 + rng.Intn(5)
+		tall := rng.Intn(3) == 0
+		sc := &Scn{Kind: "hist", Proto: []string{"kitty", "sixel"}[s%2], Cols: 14, Rows: 5, CW: g[0], CH: g[1]}
+		iw, ih := k*g[0]-rng.Intn(g[0]), 1+rng.Intn(g[1]/2)
+		own := [2]int{k, 1}
+		if tall {
+			sc.Cols, sc.Rows = 8, 14
+			iw, ih = 1+rng.Intn((g[0]+1)/2), k*g[1]-rng.Intn(g[1])
+			own = [2]int{1, k}
+		}
+		sc.Imgs = [][2]int{{iw, ih}}
+		if rng.Intn(4) == 0 {
+			sc.Org = [][2]int{{rng.Intn(2 * g[0]), 1 + rng.Intn(g[1])}}
+		}
+		// a box that makes it vanish
+		bw, bh := 1+rng.Intn(k/2), 1
+		if tall {
+			bw, bh = 1, 1+rng.Intn(k/2)
+		}
+		if !vanishes(iw, ih, bw, bh, g[0], g[1]) {
+			bw, bh = 1, 1
+		}
+		thin := vanishes(iw, ih, bw, bh, g[0], g[1])
+		at := func(w, h int) []c11.Level {
+			return []c11.Level{{"new", rng.Intn(sc.Cols - w + 1), rng.Intn(sc.Rows - h + 1), w, h}}
+		}
+		cl := GOp{K: "clear"}
+		first := at(own[0], own[1])
+		sc.Frames = append(sc.Frames, Frame{Ops: []GOp{{K: "resize", I: 0, BW: own[0], BH: own[1]}}, End: "render"})
+		if rng.Intn(3) != 0 {
+			sc.Frames = append(sc.Frames, Frame{Ops: []GOp{cl, {K: "draw", I: 0, Chain: first}}, End: "render"})
+		}
+		pos := at(bw, bh)
+		if rng.Intn(2) == 0 {
+			pos = []c11.Level{{"new", first[0].C, first[0].R, bw, bh}} // where it was
+		}
+		sc.Frames = append(sc.Frames, Frame{Ops: []GOp{cl, {K: "resize", I: 0, BW: bw, BH: bh, Thin: thin}, {K: "draw", I: 0, Chain: pos}}, End: "render"})
+		for fi, nf := 0, 1+rng.Intn(3); fi < nf; fi++ {
+			f := Frame{Ops: []GOp{cl}, End: "render"}
+			switch rng.Intn(5) {
+			case 0:
+				f.End = "refresh"
+			case 1:
+				pos = at(bw, bh)
+			case 2: // back to its own size
+				f.Ops = append(f.Ops, GOp{K: "resize", I: 0, BW: own[0], BH: own[1]})
+				pos, bw, bh = first, own[0], own[1]
+			}
+			f.Ops = append(f.Ops, GOp{K: "draw", I: 0, Chain: pos})
+			sc.Frames = append(sc.Frames, f)
+		}
+		out = append(out, sc)
+	}
+	return out
+}
+
+// GeomPairs are the changes of cell pixel size used by the geometry histories.
+var GeomPairs = [][2][2]int{{{10, 20}, {5, 10}}, {{5, 10}, {10, 20}}, {{8, 16}, {10, 21}}, {{10, 21}, {4, 8}}, {{4, 8}, {8, 16}}, {{6, 12}, {9, 12}}}
+
+// GeomHist: the terminal's cells change their pixel size while the number of
+// columns and rows stays (reported in band). The application renders, resizes
+// its images for their boxes again and draws them: the images have to fit
+// their boxes in the cells the terminal has now.
+func GeomHist() []*Scn {
+	var out []*Scn
+	cl := GOp{K: "clear"}
+	win := []c11.Level{{"new", 1, 1, 6, 6}}
+	for pi, gp := range GeomPairs[:2] {
+		for _, proto := range []string{"kitty", "sixel"} {
+			if proto == "sixel" && pi > 0 {
+				continue
+			}
+			a, b := gp[0], gp[1]
+			// 100 x 100 px into 5 x 5 cells
+			out = append(out, &Scn{Kind: "hist", Proto: proto, Cols: 24, Rows: 12, CW: a[0], CH: a[1], Imgs: [][2]int{{100, 100}}, Frames: []Frame{
+				{Ops: []GOp{{K: "resize", I: 0, BW: 5, BH: 5}}, End: "render"},
+				{Ops: []GOp{cl, {K: "draw", I: 0, Chain: win}}, End: "render"},
+				{Ops: []GOp{cl, {K: "resize", I: 0, BW: 5, BH: 5}, {K: "draw", I: 0, Chain: win}}, End: "cellsize", CW: b[0], CH: b[1]},
+				{Ops: []GOp{cl, {K: "draw", I: 0, Chain: win}}, End: "render"},
+				{Ops: []GOp{cl, {K: "draw", I: 0, Chain: win}}, End: "refresh"},
+				{Ops: []GOp{cl, {K: "resize", I: 0, BW: 4, BH: 2}, {K: "draw", I: 0, Chain: win}}, End: "cellsize", CW: a[0], CH: a[1]},
+				{Ops: []GOp{cl, {K: "draw", I: 0, Chain: win}}, End: "render"},
+			}})
+		}
+	}
+	return out
+}
+
+// GenGeom: seeded histories with one or two changes of the cell pixel size;
+// every image is resized again right after a change.
+func GenGeom(seed int64, n int) []*Scn {
+	rng := rand.New(rand.NewSource(seed*104729 + 20))
+	var out []*Scn
+	for s := 0; s < n; s++ {
+		gp := GeomPairs[rng.Intn(len(GeomPairs))]
+		cur := gp[0]
+		sc := &Scn{Kind: "hist", Proto: "kitty", Cols: 16 + rng.Intn(4), Rows: 8 + rng.Intn(3), CW: cur[0], CH: cur[1]}
+		if s%5 == 4 {
+			sc.Proto = "sixel"
+		}
+		nimg := 1 + rng.Intn(2)
+		box := make([][2]int, nimg)
+		for i := 0; i < nimg; i++ {
+			// 2..8 x 2..6 cells of the larger of the two geometries, ragged
+			mw, mh := gp[0][0], gp[0][1]
+			if gp[1][0] > mw {
+				mw = gp[1][0]
+			}
+			if gp[1][1] > mh {
+				mh = gp[1][1]
+			}
+			sc.Imgs = append(sc.Imgs, [2]int{mw*(2+rng.Intn(7)) - rng.Intn(mw), mh*(2+rng.Intn(5)) - rng.Intn(mh)})
+		}
+		pick := func(i int, g [2]int) {
+			bw, bh := 2+rng.Intn(5), 2+rng.Intn(4)
+			for vanishes(sc.Imgs[i][0], sc.Imgs[i][1], bw, bh, g[0], g[1]) {
+				bw, bh = bw+1, bh+1
+			}
+			box[i] = [2]int{bw, bh}
+		}
+		cl := GOp{K: "clear"}
+		first := Frame{End: "render"}
+		for i := 0; i < nimg; i++ {
+			pick(i, cur)
+			first.Ops = append(first.Ops, GOp{K: "resize", I: i, BW: box[i][0], BH: box[i][1]})
+		}
+		sc.Frames = append(sc.Frames, first)
+		pos := make([][]c11.Level, nimg)
+		place := func(i int) []c11.Level {
+			// a window of the size of the box, inside the screen
+			fx, fy := sc.Cols-box[i][0]+1, sc.Rows-box[i][1]+1
+			if fx < 1 {
+				fx = 1
+			}
+			if fy < 1 {
+				fy = 1
+			}
+			return []c11.Level{{"new", rng.Intn(fx), rng.Intn(fy), box[i][0], box[i][1]}}
+		}
+		changes := 1 + rng.Intn(2)
+		for fi, nf := 0, 3+rng.Intn(4); fi < nf; fi++ {
+			f := Frame{Ops: []GOp{cl}, End: "render"}
+			change := changes > 0 && (fi == 1 || (fi > 1 && rng.Intn(3) == 0))
+			if change {
+				changes--
+				if cur == gp[0] {
+					cur = gp[1]
+				} else {
+					cur = gp[0]
+				}
+				f.End, f.CW, f.CH = "cellsize", cur[0], cur[1]
+				for i := 0; i < nimg; i++ {
+					if rng.Intn(2) == 0 {
+						pick(i, cur) // another box, or the same one
+					}
+					f.Ops = append(f.Ops, GOp{K: "resize", I: i, BW: box[i][0], BH: box[i][1]})
+					if pos[i] != nil {
+						pos[i] = place(i)
+					}
+				}
+			} else if rng.Intn(5) == 0 {
+				f.End = "refresh"
+			}
+			for i := 0; i < nimg; i++ {
+				switch x := rng.Intn(6); {
+				case x < 3 && pos[i] != nil: // keep
+					f.Ops = append(f.Ops, GOp{K: "draw", I: i, Chain: pos[i]})
+				case x < 5: // add or move
+					pos[i] = place(i)
+					f.Ops = append(f.Ops, GOp{K: "draw", I: i, Chain: pos[i]})
+				}
+			}
+			sc.Frames = append(sc.Frames, f)
+		}
+		out = append(out, sc)
+	}
 	return out
 }
